@@ -21,6 +21,8 @@ import (
 	"fmt"
 	"math/big"
 	"net"
+	"os"
+	"path/filepath"
 	"strings"
 	"sync"
 	"time"
@@ -129,6 +131,8 @@ func c11checkLeaf(ca *rig.HarnessCA, hostport string, cert *tls.Certificate) (st
 		if !ecdsa.VerifyASN1(pub, nonce[:], sig) {
 			return "key-does-not-match-leaf", "a nonce signed with the returned private key does not verify under the leaf's public key"
 		}
+	} else if eq, ok := signer.Public().(interface{ Equal(crypto.PublicKey) bool }); !ok || !eq.Equal(leaf.PublicKey) {
+		return "key-does-not-match-leaf", "the returned private key's public half is not the leaf's public key"
 	}
 	if cert.Leaf != nil && !cert.Leaf.Equal(leaf) {
 		return "leaf-field-differs-from-chain", "tls.Certificate.Leaf is not the certificate in the chain"
@@ -265,54 +269,136 @@ func c11Run(b core.Batch, r *core.Recorder) {
 		}
 		r.Sample(map[string]any{"part": "expiry", "what": "a leaf signed by the harness with the CA key, NotAfter = now - m, is placed in the per-host cache; 1 or 16 goroutines then ask for that host"})
 	case "burst":
-		// many tunnels to a new host at once
-		for i, conc := range []int{2, 4, 8, 16, 32, 64} {
-			for j, h := range []string{"burst.example", "127.1.%d.%d", "[2001:db8::%d:%d]"} {
-				host := fmt.Sprintf("%d-%d-%s", i, j, h)
-				if strings.Contains(h, "%d") {
-					host = fmt.Sprintf(h, i+1, j+1)
-				}
-				hp := host + ":443"
-				id := fmt.Sprintf("b%d-%d", i, j)
-				if !r.Case(id, map[string]any{"target": hp, "concurrent": conc}) {
-					continue
-				}
-				r.Eval(1)
-				var wg sync.WaitGroup
-				got := make([]*tls.Certificate, conc)
-				errs := make([]error, conc)
-				start := make(chan struct{})
-				for g := 0; g < conc; g++ {
-					wg.Add(1)
-					go func() {
-						defer wg.Done()
-						<-start
-						got[g], errs[g] = ca.CA.GetCertForHost(hp)
-					}()
-				}
-				close(start)
-				wg.Wait()
-				r.Count("burst_cases", 1)
-				r.Nontrivial("burst", hp, conc)
-				cs := map[string]any{"id": id, "target": hp, "concurrent": conc}
-				for g := 0; g < conc; g++ {
-					if errs[g] != nil {
-						r.Violation("C11", "C11:burst:request-failed", fmt.Sprintf("%v", errs[g]), cs, nil)
-						break
+		// many tunnels to a new host at once, on a CA instance that has not issued anything yet (the very first
+		// issuance is where lazily created shared state would be set up) and on one that has
+		rounds := b.Int("rounds", 4)
+		for round := 0; round < rounds; round++ {
+			for i, conc := range []int{2, 4, 8, 16, 32, 64} {
+				for j, h := range []string{"burst.example", "127.1.%d.%d", "[2001:db8::%d:%d]", "distinct-hosts"} {
+					host := fmt.Sprintf("%d-%d-%d-%s", round, i, j, h)
+					if strings.Contains(h, "%d") {
+						host = fmt.Sprintf(h, i+1+10*round, j+1)
 					}
-					if sig, detail := c11checkLeaf(ca, hp, got[g]); sig != "" {
-						r.Violation("C11", "C11:burst:leaf:"+sig, detail, cs, nil)
-						break
+					hp := host + ":443"
+					id := fmt.Sprintf("b%d-%d-%d", round, i, j)
+					freshCA := round%2 == 0
+					if !r.Case(id, map[string]any{"target": hp, "concurrent": conc, "fresh_ca": freshCA}) {
+						continue
 					}
-				}
-				a1, _ := ca.CA.GetCertForHost(hp)
-				a2, _ := ca.CA.GetCertForHost(hp)
-				if a1 == nil || a1 != a2 {
-					r.Violation("C11", "C11:burst:not-stable-afterwards", "after a burst of first requests two further requests did not return the same certificate", cs, nil)
+					r.Eval(1)
+					bca := ca
+					if freshCA {
+						f, err := ca.Fresh()
+						if err != nil {
+							r.NotJudged("cannot-reload-ca")
+							continue
+						}
+						bca = f
+					}
+					targets := make([]string, conc)
+					for g := range targets {
+						targets[g] = hp
+						if h == "distinct-hosts" {
+							targets[g] = fmt.Sprintf("d%d-%s", g, hp) // h is a DNS form here
+						}
+					}
+					var wg sync.WaitGroup
+					got := make([]*tls.Certificate, conc)
+					errs := make([]error, conc)
+					start := make(chan struct{})
+					for g := 0; g < conc; g++ {
+						wg.Add(1)
+						go func() {
+							defer wg.Done()
+							<-start
+							got[g], errs[g] = bca.CA.GetCertForHost(targets[g])
+						}()
+					}
+					close(start)
+					wg.Wait()
+					r.Count("burst_cases", 1)
+					if freshCA {
+						r.Count("burst_cases_on_a_ca_that_had_issued_nothing", 1)
+					}
+					r.Nontrivial("burst", hp, conc, freshCA)
+					cs := map[string]any{"id": id, "target": hp, "concurrent": conc, "fresh_ca": freshCA, "distinct_hosts": h == "distinct-hosts"}
+					for g := 0; g < conc; g++ {
+						if errs[g] != nil {
+							r.Violation("C11", "C11:burst:request-failed", fmt.Sprintf("%v", errs[g]), cs, nil)
+							break
+						}
+						if sig, detail := c11checkLeaf(bca, targets[g], got[g]); sig != "" {
+							r.Violation("C11", "C11:burst:leaf:"+sig, detail, cs, nil)
+							break
+						}
+					}
+					// afterwards every target has one stable certificate, and a further new host still works
+					for _, t := range []string{targets[0], targets[conc-1]} {
+						a1, _ := bca.CA.GetCertForHost(t)
+						a2, _ := bca.CA.GetCertForHost(t)
+						if a1 == nil || a1 != a2 {
+							r.Violation("C11", "C11:burst:not-stable-afterwards", "after a burst of first requests two further requests did not return the same certificate", cs, nil)
+							break
+						}
+					}
+					later := fmt.Sprintf("later-%d-%d-%d.example:443", round, i, j)
+					if c, err := bca.CA.GetCertForHost(later); err != nil {
+						r.Violation("C11", "C11:burst:new-host-fails-afterwards", fmt.Sprintf("after the burst a request for another new host fails: %v", err), cs, nil)
+					} else if sig, detail := c11checkLeaf(bca, later, c); sig != "" {
+						r.Violation("C11", "C11:burst:leaf-afterwards:"+sig, detail, cs, nil)
+					}
 				}
 			}
 		}
-		r.Sample(map[string]any{"part": "burst", "what": "2..64 goroutines request a certificate for the same new host at the same instant (race build)"})
+		r.Sample(map[string]any{"part": "burst", "what": "2..64 goroutines request a certificate for the same new host (or for 2..64 distinct new hosts) at the same instant, alternately on a CA instance that has issued nothing yet and on the shared one (race build)"})
+	case "cakinds":
+		// the configured CA may carry any common key type (the README has operators create an RSA one)
+		wd, _ := os.Getwd()
+		for _, kind := range []string{"p256", "p384", "p521", "rsa2048", "rsa3072", "ed25519"} {
+			kca, err := rig.NewHarnessCAKind(filepath.Join(wd, "ca-"+kind), kind)
+			id := "k-" + kind
+			if !r.Case(id, kind) {
+				continue
+			}
+			r.Eval(1)
+			cs := map[string]any{"id": id, "ca_key_type": kind}
+			if err != nil {
+				r.Count("ca_kinds_refused_at_load", 1)
+				r.NotJudged("ca-kind-refused-at-load:" + kind)
+				continue
+			}
+			r.Count("ca_kinds", 1)
+			r.Nontrivial("cakind", kind)
+			bad := false
+			for _, hp := range []string{"kind.example:443", "10.1.2.3:8443", "[2001:db8::5]:443"} {
+				cert, err := kca.CA.GetCertForHost(hp)
+				if err != nil {
+					r.Violation("C11", "C11:ca-key-type:request-failed:"+kind, fmt.Sprintf("with a %s CA no certificate is issued for %s: %v", kind, hp, err), cs, nil)
+					bad = true
+					break
+				}
+				if sig, detail := c11checkLeaf(kca, hp, cert); sig != "" {
+					r.Violation("C11", "C11:ca-key-type:leaf:"+sig+":"+kind, detail, cs, nil)
+					bad = true
+					break
+				}
+			}
+			if bad {
+				continue
+			}
+			p := rig.StartProxy(rig.ProxyOpts{CA: kca})
+			for _, t := range [][2]string{{"wire-kind.example:443", "wire-kind.example"}, {"127.0.0.1:443", "127.0.0.1"}, {"[::1]:443", "::1"}} {
+				tn, err := rig.OpenTunnel(p.Addr, t[0], t[1], kca.Pool)
+				if err != nil {
+					r.Violation("C11", "C11:ca-key-type:handshake-failed:"+kind, fmt.Sprintf("with a %s CA the tunnel to %s cannot be established / verified: %v", kind, t[0], err), cs, nil)
+					break
+				}
+				tn.Close()
+				r.Count("handshakes_verified", 1)
+			}
+			p.Close()
+		}
+		r.Sample(map[string]any{"part": "cakinds", "what": "CA key types p256, p384, p521, rsa2048, rsa3072, ed25519: API-level leaf checks for a DNS, IPv4 and IPv6 target and verified TLS handshakes through a proxy configured with that CA"})
 	case "wire":
 		p := rig.StartProxy(rig.ProxyOpts{})
 		defer p.Close()
@@ -373,14 +459,15 @@ func c11Run(b core.Batch, r *core.Recorder) {
 }
 
 func c11Plan(tier string, seed int64) []core.Batch {
-	n, w := 500, 21
+	n, w, rounds := 500, 21, 4
 	if tier == "thorough" {
-		n, w = 30000, 1000
+		n, w, rounds = 30000, 1000, 40
 	}
 	return []core.Batch{
 		{Name: "api", TimeoutS: 1800, Args: map[string]any{"part": "api", "n": n}},
 		{Name: "expiry", Race: true, TimeoutS: 1800, Args: map[string]any{"part": "expiry"}},
-		{Name: "burst", Race: true, TimeoutS: 1800, Args: map[string]any{"part": "burst"}},
+		{Name: "burst", Race: true, TimeoutS: 1800, Args: map[string]any{"part": "burst", "rounds": rounds}},
+		{Name: "cakinds", TimeoutS: 1800, Args: map[string]any{"part": "cakinds"}},
 		{Name: "wire", TimeoutS: 1800, Args: map[string]any{"part": "wire", "n": w}},
 	}
 }
@@ -390,12 +477,12 @@ func init() {
 		ID:    "C11",
 		Level: "exploration",
 		Rule: "API level: 55 fixed host:port forms (case mixes, trailing dot, underscore, punycode, 63-char labels, wildcard, spaces, IPv4 edge values, bracketed IPv6 incl. zone / v4-mapped / malformed, ports 0..65535 and malformed) plus seeded random DNS / IPv4 / IPv6 targets through the real GetCertForHost; every returned leaf: x509.Verify against the CA pool for exactly that host now, exactly one SAN, validity window, private key signs a nonce the leaf key verifies, second call returns the same pointer; " +
-			"expiry: harness-signed leaves with NotAfter = now - {1 s, 1 min, 1 h, 1 d, 10 y} placed in the cache, then 1 or 16 concurrent requests; bursts of 2..64 concurrent first requests (race build); wire: CONNECT + TLS handshakes verified by Go's TLS client, twice per target. Non-trivial = distinct accepted target / expiry case / burst / handshake target.",
+			"expiry: harness-signed leaves with NotAfter = now - {1 s, 1 min, 1 h, 1 d, 10 y} placed in the cache, then 1 or 16 concurrent requests; bursts of 2..64 concurrent first requests for one new host or for as many distinct new hosts, alternately on a CA instance that has issued nothing yet and on a used one (race build), followed by a request for a further new host; CA key types p256/p384/p521/rsa2048/rsa3072/ed25519 (leaf checks + handshakes through a proxy configured with that CA); wire: CONNECT + TLS handshakes verified by Go's TLS client, twice per target. Non-trivial = distinct accepted target / expiry case / burst / handshake target.",
 		Assumptions: []string{"targets the CA refuses are counted, not judged", "x509.Verify and crypto/tls of the Go standard library are the independent oracle"},
 		Plan:        c11Plan,
 		Run:         c11Run,
 		Parallel:    4,
-		Floors: map[string]map[string]int64{"quick": {"accepted_dns": 50, "accepted_ipv4": 50, "accepted_ipv6": 50, "expiry_cases": 40, "burst_cases": 15, "handshakes_verified": 40},
-			"thorough": {"accepted_dns": 5000, "accepted_ipv4": 5000, "accepted_ipv6": 5000, "expiry_cases": 40, "burst_cases": 15, "handshakes_verified": 1500}},
+		Floors: map[string]map[string]int64{"quick": {"accepted_dns": 50, "accepted_ipv4": 50, "accepted_ipv6": 50, "expiry_cases": 40, "burst_cases": 90, "burst_cases_on_a_ca_that_had_issued_nothing": 40, "ca_kinds": 6, "handshakes_verified": 40},
+			"thorough": {"accepted_dns": 5000, "accepted_ipv4": 5000, "accepted_ipv6": 5000, "expiry_cases": 40, "burst_cases": 900, "burst_cases_on_a_ca_that_had_issued_nothing": 400, "ca_kinds": 6, "handshakes_verified": 1500}},
 	})
 }
